@@ -19,6 +19,7 @@ mod cssws_unit;
 mod bmc_unit;
 mod groupdet_unit;
 mod grouplink_unit;
+mod diag_unit;
 mod jseval_unit;
 mod posloc_unit;
 mod strfyrt_unit;
@@ -90,6 +91,8 @@ fn main() {
         ("STRFYRT", "run") => strfyrt_unit::run(&input.unwrap()),
         ("JSEVAL", "search") => jseval_unit::search(),
         ("JSEVAL", "run") => jseval_unit::run(&input.unwrap()),
+        ("DIAG", "search") => diag_unit::search(),
+        ("DIAG", "run") => diag_unit::run(&input.unwrap()),
         ("TOTAL", "search") => total_unit::search(),
         ("TOTAL", "run") => total_unit::run(&input.unwrap()),
         _ => {
